@@ -106,6 +106,33 @@ def mk_child(it, i, cmask):
     return c
 
 
+def ordinary_mask_union(run, prog, rule, where, thorough=False):
+    """an ordinary cell over two children with level masks ma, mb hashes d1 = 2 + 32*(ma | mb) (shared by C01 / C02 / C11: the hash a Merkle
+    proof is checked against goes through such cells whenever a proof prunes inside another Merkle cell)"""
+    pairs = [(a, b_) for a in range(8) for b_ in range(8)] if thorough else [(a, b_) for a in range(8) for b_ in range(8) if a <= b_ or (a | b_) not in (a, b_)]
+    bad = 0
+    for ma, mb in pairs:
+        it = Interp(prog)
+        kids = [mk_child(it, 0, ma), mk_child(it, 1, mb)]
+        run.evaluations += 1
+        try:
+            c = cm.new_cell(it, cm.tvm_bits(it, cm.data_bits(9)), kids)
+            h = c.attrs.get('_hash')
+            parts = cm.flatten_bytes(list(h.a)) if isinstance(h, Term) and h.op == 'sha256' else None
+            want = cm.spec_d1(2, False, ma | mb)
+            lm = c.attrs['level_mask'].attrs.get('_m')
+            good = parts is not None and parts[0] == ('k', want) and isinstance(lm, K) and lm.v == (ma | mb)
+            why = f'level mask {vrepr(lm)}, first hashed byte {parts[0][1] if parts and parts[0][0] == "k" else "?"}; specification: mask {ma | mb}, d1 = 2 + 32*({ma:03b} | {mb:03b}) = {want}'
+        except RaiseEx as e:
+            good, why = False, f'raises {e}'
+        if good:
+            run.ok(rule, f'd1-level[children masks {ma:03b},{mb:03b}]')
+        else:
+            bad += 1
+            if bad <= 3:
+                run.fail(rule, 'Cell.__init__[level mask of an ordinary cell]', f'children with level masks {ma:03b} and {mb:03b}: {why}', where, witness=dict(masks=[ma, mb]))
+
+
 def child_index(cmask, l):
     return popcount(apply(cmask, l))
 
